@@ -25,8 +25,16 @@ type ReadPaths struct {
 	Paths map[string]bool
 	Calls map[string]bool
 	Roots map[*ssa.Parameter]bool // parameters of the outermost function reached by the slice
+	Consts map[string]bool        // string constants in the slice
+	Whole  map[*ssa.Parameter]bool           // outermost parameters used as whole values (not only through field projections)
+	Fields map[*ssa.Parameter]map[string]bool // first-level fields read of outermost parameters
+	inProj int
 	seen  map[rpKey]bool
 	n     int
+
+	wantCall string
+	found    []InlinedInstr
+	phiSeen  map[*ssa.Phi]bool
 }
 
 type rpFrame struct {
@@ -48,7 +56,7 @@ func NewReadPaths(c *Ctx, v ssa.Value) *ReadPaths {
 }
 
 func newReadPathsAt(c *Ctx, v ssa.Value, fr *rpFrame) *ReadPaths {
-	r := &ReadPaths{c: c, Paths: map[string]bool{}, Calls: map[string]bool{}, Roots: map[*ssa.Parameter]bool{}, seen: map[rpKey]bool{}}
+	r := &ReadPaths{c: c, Paths: map[string]bool{}, Calls: map[string]bool{}, Roots: map[*ssa.Parameter]bool{}, Consts: map[string]bool{}, Whole: map[*ssa.Parameter]bool{}, Fields: map[*ssa.Parameter]map[string]bool{}, seen: map[rpKey]bool{}}
 	r.walk(v, fr)
 	return r
 }
@@ -141,6 +149,47 @@ func InlinedInstrs(c *Ctx, fn *ssa.Function, maxDepth int, pred func(ssa.Instruc
 	return res
 }
 
+// RootBlock is the block of the outermost function in which the instruction
+// (or the call chain leading to it) sits.
+func (ii InlinedInstr) RootBlock() *ssa.BasicBlock {
+	root := ii.Ins.Block()
+	for f := ii.frame; f != nil; f = f.parent {
+		if f.parent == nil && f.call != nil {
+			root = f.call.Block()
+		}
+	}
+	return root
+}
+
+// CallsInSlice returns, with their calling contexts, the static calls to
+// functions of the given name met while slicing v backwards.
+func (ii InlinedInstr) CallsInSlice(v ssa.Value, name string) []InlinedInstr {
+	r := newReadPathsAt(ii.c, nil, ii.frame)
+	r.wantCall = name
+	r.walk(v, ii.frame)
+	return r.found
+}
+
+// ControlConds returns, with their calling contexts, the branch conditions on
+// which the instruction is control dependent: in its own function and, for an
+// inlined instruction, those of the call sites leading to it.
+func (ii InlinedInstr) ControlConds() []InlinedInstr {
+	var res []InlinedInstr
+	b := ii.Ins.Block()
+	fr := ii.frame
+	for {
+		for _, iff := range ControlConds(b) {
+			res = append(res, InlinedInstr{Ins: iff, frame: fr, c: ii.c})
+		}
+		if fr == nil || fr.call == nil {
+			break
+		}
+		b = fr.call.Block()
+		fr = fr.parent
+	}
+	return res
+}
+
 // PathOf renders the field access path of v in the instruction's calling context.
 func (ii InlinedInstr) PathOf(v ssa.Value) string {
 	r := &ReadPaths{c: ii.c}
@@ -167,89 +216,198 @@ func InlinedInstrsFrom(c *Ctx, fn *ssa.Function, region map[*ssa.BasicBlock]bool
 // ReachableForKind decides whether the instruction can execute, starting at
 // block `from` of the outermost function, when the value whose access path (in
 // context) is subjectPath has dynamic type kind: comma-ok type assertions (and
-// therefore type-switch arms) on that value are evaluated, every other branch
-// is explored both ways. The walk goes through the call sites recorded in the
-// instruction's inlining frames.
+// therefore type-switch arms) on that value are evaluated, boolean results of
+// repository helpers are evaluated by the same procedure on the helper's
+// returns, every other branch is explored both ways. The walk goes through the
+// call sites recorded in the instruction's inlining frames.
 func (ii InlinedInstr) ReachableForKind(from *ssa.BasicBlock, subjectPath string, kind types.Type) bool {
+	return ii.ReachableForKindAssuming(from, subjectPath, kind, nil)
+}
+
+// ReachableForKindAssuming is ReachableForKind with assumed boolean results for
+// calls to functions / methods of the given names (e.g. "IsInvoke": false).
+func (ii InlinedInstr) ReachableForKindAssuming(from *ssa.BasicBlock, subjectPath string, kind types.Type, assume map[string]bool) bool {
+	k := &kindEval{c: ii.c, subjectPath: subjectPath, kind: kind, assume: assume}
 	// chain of (function-entry-or-from, target block, frame) from the outermost function inwards
-	type leg struct {
-		from, to *ssa.BasicBlock
-		fr       *rpFrame
-	}
-	var legs []leg
 	to := ii.Ins.Block()
 	for f := ii.frame; ; f = f.parent {
 		if f == nil {
-			legs = append(legs, leg{from, to, nil})
-			break
+			return k.reach(from, to, nil)
 		}
-		legs = append(legs, leg{f.callee.Blocks[0], to, f})
-		to = f.call.Block()
-	}
-	for _, l := range legs {
-		if !ii.reach(l.from, l.to, l.fr, subjectPath, kind) {
+		if !k.reach(f.callee.Blocks[0], to, f) {
 			return false
 		}
+		to = f.call.Block()
 	}
-	return true
 }
 
-func (ii InlinedInstr) reach(from, to *ssa.BasicBlock, fr *rpFrame, subjectPath string, kind types.Type) bool {
-	r := &ReadPaths{c: ii.c}
-	var known func(v ssa.Value, d int) (bool, bool)
-	known = func(v ssa.Value, d int) (val bool, ok bool) {
-		if d > 6 {
-			return false, false
-		}
-		switch x := v.(type) {
-		case *ssa.Extract:
-			ta, isTA := x.Tuple.(*ssa.TypeAssert)
-			if !isTA || x.Index != 1 || r.pathOf(ta.X, fr, 0) != subjectPath {
-				return false, false
-			}
-			if iface, isI := types.Unalias(ta.AssertedType).Underlying().(*types.Interface); isI {
-				return types.Implements(kind, iface), true
-			}
-			return types.Identical(kind, ta.AssertedType), true
-		case *ssa.UnOp:
-			if x.Op == token.NOT {
-				if b, ok := known(x.X, d+1); ok {
-					return !b, true
-				}
-			}
-		case *ssa.Phi:
-			// short-circuit && / ||: all known edges must agree
-			first := true
-			var acc bool
-			for _, e := range x.Edges {
-				b, ok := known(e, d+1)
-				if !ok {
-					if k, isC := e.(*ssa.Const); isC && k.Value != nil && k.Value.Kind() == constant.Bool {
-						b, ok = constant.BoolVal(k.Value), true
-					}
-				}
-				if !ok {
-					return false, false
-				}
-				if first {
-					acc, first = b, false
-				} else if acc != b {
-					return false, false
-				}
-			}
-			return acc, !first
-		}
+type kindEval struct {
+	c           *Ctx
+	subjectPath string
+	kind        types.Type
+	assume      map[string]bool
+}
+
+func constBool(v ssa.Value) (bool, bool) {
+	if k, isC := v.(*ssa.Const); isC && k.Value != nil && k.Value.Kind() == constant.Bool {
+		return constant.BoolVal(k.Value), true
+	}
+	return false, false
+}
+
+func (k *kindEval) known(v ssa.Value, fr *rpFrame, d int) (val bool, ok bool) {
+	if d > 8 {
 		return false, false
 	}
-	// the walk is over CFG edges so that a boolean phi tested in its own block (flag set in the arms of a
-	// type switch, tested after it) can be evaluated for the predecessor actually taken
+	if b, ok := constBool(v); ok {
+		return b, true
+	}
+	r := &ReadPaths{c: k.c}
+	switch x := v.(type) {
+	case *ssa.Extract:
+		switch t := x.Tuple.(type) {
+		case *ssa.TypeAssert:
+			if x.Index != 1 || r.pathOf(t.X, fr, 0) != k.subjectPath {
+				return false, false
+			}
+			if iface, isI := types.Unalias(t.AssertedType).Underlying().(*types.Interface); isI {
+				return types.Implements(k.kind, iface), true
+			}
+			return types.Identical(k.kind, t.AssertedType), true
+		case *ssa.Call:
+			return k.callResult(t, x.Index, fr, d)
+		}
+	case *ssa.Call:
+		return k.callResult(x, 0, fr, d)
+	case *ssa.UnOp:
+		if x.Op == token.NOT {
+			if b, ok := k.known(x.X, fr, d+1); ok {
+				return !b, true
+			}
+		}
+	case *ssa.Parameter:
+		if fr != nil {
+			if i := ParamIndex(fr.callee, x); i >= 0 && i < len(fr.args) {
+				return k.known(fr.args[i], fr.parent, d+1)
+			}
+		}
+	case *ssa.Phi:
+		// all edges known and agreeing (short-circuit && / || whose operands are all decided)
+		first := true
+		var acc bool
+		for _, e := range x.Edges {
+			b, ok := k.known(e, fr, d+1)
+			if !ok {
+				return false, false
+			}
+			if first {
+				acc, first = b, false
+			} else if acc != b {
+				return false, false
+			}
+		}
+		return acc, !first
+	}
+	return false, false
+}
+
+// callResult evaluates boolean result idx of a call: by assumption on the
+// callee's name, or by evaluating the returns of a repository callee that are
+// reachable for the kind.
+func (k *kindEval) callResult(call *ssa.Call, idx int, fr *rpFrame, d int) (bool, bool) {
+	name := ""
+	sc := call.Call.StaticCallee()
+	if sc != nil {
+		name = sc.Name()
+	} else if call.Call.IsInvoke() {
+		name = call.Call.Method.Name()
+	}
+	if v, ok := k.assume[name]; ok {
+		return v, true
+	}
+	depth := 0
+	if fr != nil {
+		depth = fr.depth
+	}
+	if sc == nil || sc.Blocks == nil || !k.c.IsRepoFunc(sc) || depth >= 3 {
+		return false, false
+	}
+	for p := fr; p != nil; p = p.parent {
+		if p.callee == sc {
+			return false, false
+		}
+	}
+	nf := &rpFrame{call: call, args: call.Call.Args, callee: sc, parent: fr, depth: depth + 1}
+	first := true
+	var acc bool
+	for _, b := range sc.Blocks {
+		ret, ok := b.Instrs[len(b.Instrs)-1].(*ssa.Return)
+		if !ok || idx >= len(ret.Results) {
+			continue
+		}
+		if !k.reach(sc.Blocks[0], b, nf) {
+			continue
+		}
+		// a returned phi: evaluate per incoming edge that is itself reachable
+		v, ok := k.knownAt(ret.Results[idx], b, nf, d+1)
+		if !ok {
+			return false, false
+		}
+		if first {
+			acc, first = v, false
+		} else if acc != v {
+			return false, false
+		}
+	}
+	return acc, !first
+}
+
+// knownAt evaluates v at the end of block b; a phi of b is evaluated over the
+// predecessors through which b is reachable.
+func (k *kindEval) knownAt(v ssa.Value, b *ssa.BasicBlock, fr *rpFrame, d int) (bool, bool) {
+	if phi, ok := v.(*ssa.Phi); ok && phi.Block() == b {
+		first := true
+		var acc bool
+		for i, p := range b.Preds {
+			if !k.reachEdge(b.Parent().Blocks[0], p, b, fr) {
+				continue
+			}
+			x, ok := k.known(phi.Edges[i], fr, d+1)
+			if !ok {
+				return false, false
+			}
+			if first {
+				acc, first = x, false
+			} else if acc != x {
+				return false, false
+			}
+		}
+		return acc, !first
+	}
+	return k.known(v, fr, d)
+}
+
+func (k *kindEval) reach(from, to *ssa.BasicBlock, fr *rpFrame) bool {
+	return k.walk(from, to, nil, fr)
+}
+
+// reachEdge: is the CFG edge pred->b taken on some path from `from`?
+func (k *kindEval) reachEdge(from, pred, b *ssa.BasicBlock, fr *rpFrame) bool {
+	return k.walk(from, b, pred, fr)
+}
+
+// walk explores CFG edges from `from`; it succeeds on reaching `to` (through
+// predecessor viaPred if that is non-nil). Edges rather than blocks are visited
+// so that a boolean phi tested in its own block (a flag set in the arms of a type
+// switch and tested after it) is evaluated for the predecessor actually taken.
+func (k *kindEval) walk(from, to, viaPred *ssa.BasicBlock, fr *rpFrame) bool {
 	type edge struct{ pred, b *ssa.BasicBlock }
 	seen := map[edge]bool{}
 	st := []edge{{nil, from}}
 	for len(st) > 0 {
 		e := st[len(st)-1]
 		st = st[:len(st)-1]
-		if e.b == to {
+		if e.b == to && (viaPred == nil || e.pred == viaPred) {
 			return true
 		}
 		if seen[e] {
@@ -258,17 +416,12 @@ func (ii InlinedInstr) reach(from, to *ssa.BasicBlock, fr *rpFrame, subjectPath 
 		seen[e] = true
 		blk := e.b
 		if iff, ok := blk.Instrs[len(blk.Instrs)-1].(*ssa.If); ok {
-			val, ok := known(iff.Cond, 0)
+			val, ok := k.known(iff.Cond, fr, 0)
 			if !ok && e.pred != nil {
 				if phi, isPhi := iff.Cond.(*ssa.Phi); isPhi && phi.Block() == blk {
 					for i, p := range blk.Preds {
-						if p != e.pred {
-							continue
-						}
-						if k, isC := phi.Edges[i].(*ssa.Const); isC && k.Value != nil && k.Value.Kind() == constant.Bool {
-							val, ok = constant.BoolVal(k.Value), true
-						} else {
-							val, ok = known(phi.Edges[i], 1)
+						if p == e.pred {
+							val, ok = k.known(phi.Edges[i], fr, 1)
 						}
 					}
 				}
@@ -347,9 +500,17 @@ func (r *ReadPaths) walk(v ssa.Value, fr *rpFrame) {
 			}
 		} else if r.Roots != nil {
 			r.Roots[x] = true
+			if r.inProj == 0 && r.Whole != nil {
+				r.Whole[x] = true
+			}
 		}
 		return
-	case *ssa.FreeVar, *ssa.Global, *ssa.Const, *ssa.Function, *ssa.Builtin:
+	case *ssa.Const:
+		if r.Consts != nil && x.Value != nil && x.Value.Kind() == constant.String {
+			r.Consts[constant.StringVal(x.Value)] = true
+		}
+		return
+	case *ssa.FreeVar, *ssa.Global, *ssa.Function, *ssa.Builtin:
 		return
 	case *ssa.Alloc:
 		r.allocContents(x, x, fr, 0)
@@ -368,19 +529,47 @@ func (r *ReadPaths) walk(v ssa.Value, fr *rpFrame) {
 		}
 	case *ssa.UnOp:
 		if x.Op.String() == "*" {
-			if p := r.pathOf(x.X, fr, 0); p != "" {
+			if p, root := r.pathAndRoot(x.X, fr, 0); p != "" {
 				r.Paths[p] = true
+				r.noteField(p, root)
+			}
+			// field-sensitive contents of a local struct: a load of field f of a local allocation depends on
+			// the stores to that field and on whole-struct stores, not on the other fields
+			if fa, ok := x.X.(*ssa.FieldAddr); ok {
+				if al, ok := fa.X.(*ssa.Alloc); ok && al.Referrers() != nil {
+					for _, ref := range *al.Referrers() {
+						switch y := ref.(type) {
+						case *ssa.Store:
+							if y.Addr == ssa.Value(al) {
+								r.walk(y.Val, fr)
+							}
+						case *ssa.FieldAddr:
+							if y.Field == fa.Field && y.Referrers() != nil {
+								for _, r2 := range *y.Referrers() {
+									if st, ok := r2.(*ssa.Store); ok && st.Addr == ssa.Value(y) {
+										r.walk(st.Val, fr)
+									}
+								}
+							}
+						}
+					}
+					return
+				}
 			}
 		}
 	case *ssa.Field:
-		if p := r.pathOf(x, fr, 0); p != "" {
+		if p, root := r.pathAndRoot(x, fr, 0); p != "" {
 			r.Paths[p] = true
+			r.noteField(p, root)
 		}
 	case *ssa.Call:
 		sc := x.Call.StaticCallee()
 		depth := 0
 		if fr != nil {
 			depth = fr.depth
+		}
+		if r.wantCall != "" && sc != nil && sc.Name() == r.wantCall {
+			r.found = append(r.found, InlinedInstr{Ins: x, frame: fr, c: r.c})
 		}
 		if sc != nil && sc.Blocks != nil && r.c.IsRepoFunc(sc) && depth < 6 && !r.onStack(sc, fr) {
 			r.Calls[sc.Name()] = true
@@ -403,15 +592,63 @@ func (r *ReadPaths) walk(v ssa.Value, fr *rpFrame) {
 			name = b.Name()
 		}
 		r.Calls[name] = true
+		// a getter that is not inlined (method without further arguments) is a projection of its receiver:
+		// `m.Pkg()` reads the pseudo-field "Pkg()" of m
+		var recv ssa.Value
+		switch {
+		case x.Call.IsInvoke() && len(x.Call.Args) == 0:
+			recv = x.Call.Value
+		case sc != nil && sc.Signature.Recv() != nil && len(x.Call.Args) == 1:
+			recv = x.Call.Args[0]
+		}
+		if recv != nil && x.Type() != nil {
+			p, root := r.pathAndRoot(recv, fr, 0)
+			full := name + "()"
+			if p != "" {
+				full = p + "." + full
+			}
+			r.Paths[full] = true
+			r.noteField(full, root)
+			r.inProj++
+			r.walk(recv, fr)
+			r.inProj--
+			return
+		}
 	}
 	if ins, ok := v.(ssa.Instruction); ok {
+		proj := false
+		switch ins.(type) {
+		case *ssa.FieldAddr, *ssa.Field:
+			proj = true
+		}
+		if proj {
+			r.inProj++
+		}
 		var rands []*ssa.Value
 		for _, op := range ins.Operands(rands) {
 			if *op != nil {
 				r.walk(*op, fr)
 			}
 		}
+		if proj {
+			r.inProj--
+		}
 	}
+}
+
+func (r *ReadPaths) noteField(path string, root ssa.Value) {
+	p, ok := root.(*ssa.Parameter)
+	if !ok || r.Fields == nil {
+		return
+	}
+	first := path
+	if i := strings.Index(path, "."); i >= 0 {
+		first = path[:i]
+	}
+	if r.Fields[p] == nil {
+		r.Fields[p] = map[string]bool{}
+	}
+	r.Fields[p][first] = true
 }
 
 func (r *ReadPaths) onStack(fn *ssa.Function, fr *rpFrame) bool {
@@ -452,8 +689,21 @@ func (r *ReadPaths) allocContents(root *ssa.Alloc, addr ssa.Value, fr *rpFrame, 
 // pathOf renders the field path of an address / field value, resolving
 // parameters through the inlining frames.
 func (r *ReadPaths) pathOf(v ssa.Value, fr *rpFrame, depth int) string {
+	p, _ := r.pathAndRoot(v, fr, depth)
+	return p
+}
+
+// pathAndRoot renders the field path of an address / field value and returns
+// the value at which the path is rooted (where resolution stops: a parameter of
+// the outermost function, the result of a type assertion or call, ...).
+// Element accesses (indexing, range iteration) are transparent: the path of
+// `x.States[i].Chan` is "States.Chan".
+func (r *ReadPaths) pathAndRoot(v ssa.Value, fr *rpFrame, depth int) (string, ssa.Value) {
+	if depth == 0 {
+		r.phiSeen = nil
+	}
 	if depth > 24 {
-		return ""
+		return "", v
 	}
 	join := func(prefix, name string) string {
 		if prefix == "" {
@@ -465,23 +715,31 @@ func (r *ReadPaths) pathOf(v ssa.Value, fr *rpFrame, depth int) string {
 	case *ssa.FieldAddr:
 		_, f := FieldOf(x)
 		if f == nil {
-			return ""
+			return "", v
 		}
-		return join(r.pathOf(x.X, fr, depth+1), f.Name())
+		p, root := r.pathAndRoot(x.X, fr, depth+1)
+		return join(p, f.Name()), root
 	case *ssa.Field:
 		_, f := FieldOf(x)
 		if f == nil {
-			return ""
+			return "", v
 		}
-		return join(r.pathOf(x.X, fr, depth+1), f.Name())
+		p, root := r.pathAndRoot(x.X, fr, depth+1)
+		return join(p, f.Name()), root
 	case *ssa.UnOp:
 		if x.Op.String() == "*" {
-			return r.pathOf(x.X, fr, depth+1)
+			return r.pathAndRoot(x.X, fr, depth+1)
 		}
+	case *ssa.IndexAddr:
+		return r.pathAndRoot(x.X, fr, depth+1)
+	case *ssa.Index:
+		return r.pathAndRoot(x.X, fr, depth+1)
+	case *ssa.Slice:
+		return r.pathAndRoot(x.X, fr, depth+1)
 	case *ssa.Parameter:
 		if fr != nil {
 			if i := ParamIndex(fr.callee, x); i >= 0 && i < len(fr.args) {
-				return r.pathOf(fr.args[i], fr.parent, depth+1)
+				return r.pathAndRoot(fr.args[i], fr.parent, depth+1)
 			}
 		}
 	case *ssa.Alloc:
@@ -496,16 +754,55 @@ func (r *ReadPaths) pathOf(v ssa.Value, fr *rpFrame, depth int) string {
 			}
 		}
 		if n == 1 {
-			return r.pathOf(st.Val, fr, depth+1)
+			return r.pathAndRoot(st.Val, fr, depth+1)
 		}
 	case *ssa.Phi:
+		// each phi is expanded once per query (loop-carried phis would otherwise be re-expanded exponentially)
+		if r.phiSeen[x] {
+			return "", v
+		}
+		if r.phiSeen == nil {
+			r.phiSeen = map[*ssa.Phi]bool{}
+		}
+		r.phiSeen[x] = true
 		for _, e := range x.Edges {
-			if p := r.pathOf(e, fr, depth+1); p != "" {
-				return p
+			if p, root := r.pathAndRoot(e, fr, depth+1); p != "" {
+				return p, root
 			}
 		}
 	case *ssa.ChangeType:
-		return r.pathOf(x.X, fr, depth+1)
+		return r.pathAndRoot(x.X, fr, depth+1)
+	case *ssa.Extract:
+		// comma-ok type assertion: the asserted value
+		if _, ok := x.Tuple.(*ssa.TypeAssert); ok && x.Index == 0 {
+			return "", x
+		}
 	}
-	return ""
+	return "", v
+}
+
+// PathAndRoot is pathAndRoot in the instruction's calling context.
+func (ii InlinedInstr) PathAndRoot(v ssa.Value) (string, ssa.Value) {
+	r := &ReadPaths{c: ii.c}
+	return r.pathAndRoot(v, ii.frame, 0)
+}
+
+// PathAndRootOf renders the field access path of v (no calling context) and the value it is rooted at.
+// Map lookups are transparent: the path of `ea.blockEnd[bb]` is "blockEnd".
+func (c *Ctx) PathAndRootOf(v ssa.Value) (string, ssa.Value) {
+	for i := 0; i < 4; i++ {
+		switch x := v.(type) {
+		case *ssa.Extract:
+			if lk, ok := x.Tuple.(*ssa.Lookup); ok && x.Index == 0 {
+				v = lk.X
+				continue
+			}
+		case *ssa.Lookup:
+			v = x.X
+			continue
+		}
+		break
+	}
+	r := &ReadPaths{c: c}
+	return r.pathAndRoot(v, nil, 0)
 }
